@@ -592,6 +592,11 @@ func main() {
 				res += fmt.Sprintf(" @CYCLE o%d", cyc)
 			}
 		}
+		if w[0] != "set" && w[0] != "get" {
+			// accessor calls are part of the compared answer for [[Get]]/[[Set]] only (error-message formatting of a
+			// failed operation on a function may read a user-defined `name` getter: observed, not judged here)
+			s.js("LOG.length=0")
+		}
 		po := s.checkOrder()
 		if dump {
 			res += " # " + s.js("dumpAll()")
